@@ -188,8 +188,11 @@ fn message_of(g: u8, m: u8, created: u8, processed: u8, epoch: u8, state: u8, co
         1 => format!("content {content} of {m}"),
         _ => "long ".repeat(300),
     };
+    let author_sel = author;
     let author = pk(author % 3);
-    let kind = Kind::Custom(9);
+    // every column differs between two saves of the same id with other parameters (a column
+    // forgotten in an upsert's update list must show)
+    let kind = Kind::Custom(9 + (content.len() % 2) as u16);
     let mut ev = UnsignedEvent::new(author, ts(created), kind, tags.clone(), content.clone());
     ev.id = Some(mid(m));
     Message {
@@ -202,7 +205,7 @@ fn message_of(g: u8, m: u8, created: u8, processed: u8, epoch: u8, state: u8, co
         content,
         tags: Tags::from_list(tags),
         event: ev,
-        wrapper_event_id: wid(m % N_WRAP),
+        wrapper_event_id: wid((m + author_sel) % N_WRAP),
         epoch: if epoch % 4 == 3 { None } else { Some((epoch % 4) as u64) },
         state: [MessageState::Created, MessageState::Processed, MessageState::Deleted, MessageState::EpochInvalidated][state as usize % 4],
     }
